@@ -9,7 +9,8 @@ Record robs := {
   o_joined : bool;        (* join() returned within the limit after stop() *)
   o_saves : N;          (* store() calls on the resource's retain store *)
   o_mine : option N;    (* its private cycle counter read while everything was paused; None for a resource that had faulted *)
-  o_bad : N             (* cycles in which it saw x <> y *)
+  o_bad : N;            (* cycles in which it saw x <> y *)
+  o_gated : bool        (* the start gate was never opened: the resource was stopped while waiting at it *)
 }.
 Record obs := {
   b_x : N; b_y : N;                       (* the shared pair while every live resource was paused *)
@@ -19,9 +20,11 @@ Record obs := {
   b_res : list robs
 }.
 Definition sum_mine (l : list robs) : N := fold_right (fun r acc => match o_mine r with Some m => (m + acc)%N | None => acc end) 0%N l.
-Definition faulted (l : list robs) : nat := length (filter (fun r => match o_mine r with None => true | Some _ => false end) l).
+Definition faulted (l : list robs) : nat := length (filter (fun r => match o_mine r with None => negb (o_gated r) | Some _ => false end) l).
 Definition res_ok (r : robs) : bool :=
   o_joined r && N.eqb (o_bad r) 0 &&
+  if o_gated r then Nat.eqb (o_state r) 5 && N.eqb (o_saves r) 0    (* stopped at the gate: terminated, Stopped, no cycle ran, nothing to save *)
+  else
   match o_mine r with
   | Some _ => Nat.eqb (o_state r) 5 && N.eqb (o_saves r) 1       (* stopped: saved once *)
   | None => Nat.eqb (o_state r) 4 && N.eqb (o_saves r) 0         (* faulted: the loop ended before *)
